@@ -34,7 +34,9 @@ Reading (how the words of the property are taken; the oracle below implements ex
   the pickup-corrected start of the first measure) the number map has none either (clause `measure-consistency`).
 * a measure without a number has no number to report: not judged.
 * scalar/array agreement: f(x) for a Python int, f(np.array(xs)) and f(list(xs)) give the same rows; so do a numpy
-  integer scalar (one row) and a tuple; an empty list / array gives no rows.
+  integer scalar (one row) and a tuple; an empty list / array gives no rows.  A 0-dimensional array np.array(x) is
+  both a scalar (np.ndim 0) and an array (an Iterable ndarray): the row of f(x), as a row or as a one-row array, is
+  accepted by the oracle; which of the two each map gives is mirrored by the model and compared (round 6).
 * "every part": a part is what its edit history left on the timeline.  The maps are views of the part as it is NOW:
   after any history of add / remove / set_quarter_duration / use_musical_beat / use_notated_beat /
   set_musical_beat_per_ts calls, interleaved with queries of the maps, every map equals the map of a part freshly
@@ -69,7 +71,7 @@ DRIVER = "drv_c10"
 PROPS = ["PartituraModel.Props.C10", "PartituraModel.Props.C10Part", "PartituraModel.Props.C10Timeline",
          "PartituraModel.Props.C10Exact", "PartituraModel.Props.C10Notes", "PartituraModel.Props.C10Source",
          "PartituraModel.Props.C10Order", "PartituraModel.Props.C10Hist",
-         "PartituraModel.Props.C10Start", "PartituraModel.Props.C10Calls"]
+         "PartituraModel.Props.C10Start", "PartituraModel.Props.C10Calls", "PartituraModel.Props.C10Fresh"]
 TRUSTED = [
     "scipy.interpolate.interp1d(kind='previous', fill_value='extrapolate'): index = #{x_i <= q} clipped to 1..n, "
     "NaN below the first sample (modelled by lastLE; exercised at positions before the first sample)",
@@ -87,8 +89,9 @@ TRUSTED = [
     "onset_beat column (C05): the rows are then compared as a set ordered by (onset_div, pitch)",
     "a NaN measure length (position before the first bar line of a part with several measures) is INT64_MIN after "
     ".astype(int) and the i4 column of the note array keeps its low 32 bits (0): the harness prints that cell as `nan`",
-    "harness/translate_c10.py reads defaults, pickup rounding and column layout off the live functions by running them "
-    "on probe parts (a part with one note and one rest; 3/8 at 3 divisions per quarter): that these probes are "
+    "harness/translate_c10.py reads defaults, pickup rounding, column layout and the one-row/array answer per kind of "
+    "argument off the live functions by running them "
+    "on probe parts (a part with one note and one rest; 3/8 at 3 divisions per quarter; 3/4 with two bars): that these probes are "
     "representative is what the correspondence streams check on every generated part",
     "binary64 arithmetic: the model is exact; that the float bar length beats_per_bar * divs_per_beat is within half a "
     "division of the exact one is what pickup_start_noise_free needs (observed within 1e-9 relative by the `dpb` "
@@ -98,26 +101,40 @@ TRUSTED = [
     "map's range, is not compared for the three measure maps (counted in the distribution)",
 ]
 PARTIAL = [
-    "scalar/array agreement: the dispatch on the kind of argument (scipy / the wrapper's single-sample broadcast / the "
-    "Iterable test of the metrical map / the clef collator) is modelled (Model/StepMapCalls.lean) and proved to agree "
-    "(*_calls_agree) for a scalar and a flat sequence; the implementation is compared with it for int, np.int64, list, "
-    "tuple, 1-d array, empty list and empty array; 0-d arrays, nested sequences and float positions are not modelled",
+    "scalar/array agreement: the dispatch on the kind of argument (scipy / the wrapper's single-sample broadcast and "
+    "np.ndim test / PPoly, the Iterable test and np.column_stack of the metrical map / the clef collator) is modelled "
+    "as the code dispatches (Model/StepMapCalls.lean) and proved to agree without hypotheses (*_calls_agree, "
+    "zerod_calls_agree, call_shapes) for a number, a 0-dimensional array and a flat sequence; the implementation is "
+    "compared with it for int, np.int64, np.array(x), list, tuple, 1-d array, empty list and empty array; for a "
+    "0-dimensional array metrical_position_map of a part with measures answers with a ONE-ROW ARRAY (numpy.ndarray is "
+    "Iterable) where the other maps answer with the row: the values agree (theorem and oracle), the shape is mirrored, "
+    "not judged; nested sequences and float positions are not modelled (outside the quantifier: 'integer positions, "
+    "scalar and vector arguments')",
     "ts/ks/clef_spec assume at most one element of a kind (and staff) per time (the Reading); for coincident elements "
     "ks/ts/clef_coincident (Props/C10Order.lean) state which one is returned (the last in iter_all order, the first of the "
     "table before all of them); the ORACLE still accepts any of the coincident elements (the Reading)",
-    "measure_spec/number_spec assume measures in time order without overlap (gaps allowed); the length component of "
-    "metrical_spec assumes they tile (metrical_position_no_tiling gives the position component without that)",
+    "measure_spec/number_spec assume measures in time order without overlap (gaps allowed); for the part an edit "
+    "history leaves the time order is derived (measures_ordered_after_history, measure_after_history, "
+    "number_after_history: non-empty pairwise disjoint measures, added in any order, is all that is assumed); the length "
+    "component of metrical_spec assumes they tile (metrical_position_no_tiling gives the position component without that)",
     "pickup_spec_described gives the closed form (full bar = beats * 4/beat_type quarters at the quarter duration in force "
     "at 0, in both beat modes) for a description whose first signature and quarter duration start at 0, with no later "
     "signature / quarter-duration change inside the first beat and a timeline at least one beat long (DescribedStart: "
     "conditions on the description only; the key-point conditions of SimpleStart are derived); without them "
     "divs_per_beat_spec still characterises divs_per_beat as the position one beat after position 0",
     "histories: Model/StepMapHist.lean models add / remove / re-add / beat-mode switches / set_quarter_duration on the "
-    "elements the maps read and is compared with the state of the real part after every generated history (`hist`); "
-    "rebuild_same_tables proves that a fresh build of what is on the timeline has the same tables, time points and beat "
-    "mode for EVERY history; the quarter-duration table is reproduced only up to redundant entries "
-    "(rebuild_same_description assumes it is; the counter-example is in Props/C10Hist.lean; as functions the tables are "
-    "equal: property C02); objects whose attributes are changed in place are not modelled",
+    "elements the maps read and is compared with the state of the real part after every generated history (`hist`) and "
+    "with the state of the harness's fresh build (`rebuild`); rebuild_same_tables proves that a fresh build of what is "
+    "on the timeline has the same tables, time points and beat mode for EVERY history, rebuild_same_maps that the "
+    "time-signature, key-signature and clef maps are therefore the same functions for EVERY history; the "
+    "quarter-duration table is reproduced exactly when it has no redundant entry (rebuild_qd_normal, "
+    "rebuild_any_history_normal; the counter-example with a redundant entry is in Props/C10Hist.lean).  For the three "
+    "MEASURE maps of a part whose table has redundant entries the equality with the fresh build is proved where the "
+    "part starts simply (rebuild_same_maps_described: the DescribedStart conditions of the pickup rule); outside that "
+    "domain it needs `divs_per_beat` of the fresh build to be the same (rebuild_same_maps states exactly that; that a "
+    "redundant entry does not change the beat map is property C02, here observed by the `rebuilddpb` stream and judged "
+    "by the fresh-build oracle, not proved); set_quarter_duration at negative times is not generated (qd_head_zero and "
+    "the fresh-build theorems assume times >= 0) and objects whose attributes are changed in place are not modelled",
     "the note-array theorems (Props/C10Notes.lean) are about the modelled columns: object, onset_div, pitch and the eight "
     "cells derived from the maps; the other columns (beats, quarters, duration, voice, id, spelling, grace, staff, "
     "divs_pq) and the voice pass are property C05; rows_sorted is about the model's stable sorts (sort key onset_div)",
@@ -137,9 +154,11 @@ RULE = ("three structured generators over abstract parts built through Part.add/
         "measures, coincident elements, malformed mode or clef sign, 0 beats); where a kind (and staff) has three or more "
         "elements the piece mostly RETURNS to an earlier signature / clef (A B A); 40% of the cases continue with an edit "
         "history (queries of all maps, removal and re-adding of any element, use_musical_beat with default and custom "
-        "tables, use_notated_beat, set_musical_beat_per_ts, set_quarter_duration) and are compared with a fresh build of "
-        "what is left; every map is queried at every integer position of the timeline (plus 2 before and after) as "
-        "scalar, ndarray and list; every case with notes also builds the note / rest arrays four ways: "
+        "tables, use_notated_beat, set_musical_beat_per_ts, set_quarter_duration; one history in four ends by setting a "
+        "quarter duration and setting it back, which leaves a REDUNDANT table entry) and are compared with a fresh build "
+        "of what is left; every map is queried at every integer position of the timeline (plus 2 before and after) as "
+        "scalar, ndarray and list, and once each with a numpy integer, a 0-dimensional array, a tuple, an empty list and "
+        "an empty array; every case with notes also builds the note / rest arrays four ways: "
         "note_array_from_note_list / rest_array_from_rest_list called directly with a subset of the three maps (all 8 "
         "subsets; 30% also with beat and quarter maps) on the notes in score order / by pitch / reversed / shuffled / a "
         "hand-picked shuffled sub-list, and note_array_from_part / rest_array_from_part with the same include_* flags; 40% "
@@ -161,7 +180,16 @@ LEVEL_TEXT = ("Lean 4 theorems over an executable model of the six maps as funct
               "elements (last in iter_all order) and edit histories (rebuild_same_tables: a fresh build of what is on the "
               "timeline reads the same) are theorems over a Lean history model compared with the real part's state; the "
               "pickup rule needs description-level hypotheses only (pickup_spec_described); defaults, the rounding of the "
-              "pickup rule and the column layout are regenerated from the live functions (Gen/C10Tables.lean).")
+              "pickup rule and the column layout are regenerated from the live functions (Gen/C10Tables.lean).  "
+              "Round 6: metrical_position_map's call is modelled as the code dispatches (PPoly / wrapper / Iterable test / "
+              "column_stack) and every *_calls_agree theorem is hypothesis-free, with 0-dimensional arrays as a third kind "
+              "of argument (zerod_calls_agree, call_shapes; the one-row/array table is regenerated from the live maps: "
+              "arg_shapes_from_source); for the part ANY history leaves the clef map and the measure maps are specified "
+              "with the table order derived (clef_after_history, measure_after_history, number_after_history); a fresh "
+              "build reproduces the whole description when the quarter-duration table has no redundant entry "
+              "(rebuild_any_history_normal, qd_head_zero) and, redundant entries or not, has the same ts/ks/clef maps "
+              "(rebuild_same_maps) and - where the part starts simply - the same six maps (rebuild_same_maps_described); "
+              "the model of the fresh build is itself compared with the real fresh build (`rebuild`, `rebuilddpb`).")
 
 INT_MIN = -(2 ** 63)
 GEN_LINE_NONE = True  # clefs without a line (repaired by fixes/C10-11)
@@ -493,6 +521,34 @@ def gen_history(rng, d):
     return hist
 
 
+def redundant_qd(d):
+    """round 6: one history in four ends by setting the quarter duration at some time t > 0 to another value and then
+    back to the duration in force before t: the table keeps a REDUNDANT entry (t, same value) - the one thing a fresh
+    build of the part does not reproduce (Props/C10Hist.lean: rebuild_qd_normal needs a table without one; the maps
+    must not care).  Drawn from a generator seeded with the description, so that the main stream of random numbers
+    (and with it every other case) is the one of the earlier rounds."""
+    import random
+    import zlib
+
+    r = random.Random(zlib.crc32(json.dumps(d, sort_keys=True, default=str).encode()))
+    if r.random() >= 0.25:
+        return
+    table = [[0, d["q0"]]]
+    for t, q in d.get("qd", []):
+        qd_set(table, t, q)
+    for op in d["hist"]:
+        if op[0] == "qd":
+            qd_set(table, op[1], op[2])
+    tmax = max([1] + [e[0] for k in KINDS for e in d.get(k, [])] + [m[1] for m in d["ms"]])
+    t = r.choice([e[0] for e in table if e[0] > 0] + [r.randint(1, tmax)] * 3)
+    before = [e for e in table if e[0] < t][-1][1]
+    other = r.choice([q for q in (1, 2, 3, 4, 6, 8, 12, 7) if q != before])
+    d["hist"].append(["qd", t, other])
+    if r.random() < 0.5:
+        d["hist"].append(["q"])
+    d["hist"].append(["qd", t, before])
+
+
 def restate(rng, d):
     """a piece that RETURNS to a signature / clef it has used before (A B A): the third element of a kind (and staff)
     takes the values of the first - a map that merges 'restated' elements by value must not lose the return"""
@@ -543,6 +599,7 @@ def cases(rng, tier):
                     c[3] = 0
         if rng.random() < 0.4:
             d["hist"] = gen_history(rng, d)
+            redundant_qd(d)
         yield d
 
 
@@ -1177,6 +1234,10 @@ def evaluate(desc):
         mid = xs[h % len(xs)]
         few = [xs[(h // 7 + 3 * k) % len(xs)] for k in range(1 + h % 3)]
         arg_kinds = [("np.int64", "s %d" % mid, lambda: np.int64(mid), [mid], True),
+                     # a 0-dimensional array: one position; the row of the int call, as a row or (the metrical map of
+                     # a part with measures: numpy.ndarray is Iterable) as a one-row array - the correspondence pins
+                     # which (Model/StepMapCalls.lean Arg.zerod), the oracle accepts either shape with the right row
+                     ("0-d array", "z %d" % mid, lambda: np.array(mid), [mid], "zerod"),
                      ("tuple", "v " + W.lst(W.i, few), lambda: tuple(int(x) for x in few), few, False),
                      ("empty list", "v 0", lambda: [], [], False),
                      ("empty array", "v 0", lambda: np.array([], dtype=int), [], False)]
@@ -1188,6 +1249,7 @@ def evaluate(desc):
             ("measure_number_map", "cmn " + ptok, canon_mn, mn_s, mn_e, None),
             ("metrical_position_map", "cmp " + ptok, canon_mp, mp_s, mp_e, None)]
         nkinds = 0
+        zshapes = {}
         for name, req, canon0, rows_s, err_s, approx_k in call_specs:
             if err_s is not None or rows_s is None:
                 continue  # the map raises (reported above): nothing to call
@@ -1202,7 +1264,11 @@ def evaluate(desc):
                     orc.append("scalar-vector: %s(%s argument) raised %s: %s" % (name, label, type(e).__name__, str(e)[:100]))
                     continue
                 want = [rows_s[idx_all[x]] for x in at]
-                if is_scalar:
+                if is_scalar == "zerod":
+                    good = r == want[0] or r == [want[0]]
+                    k = "0-d array:%s:%s" % (name, "one-row array" if r == [want[0]] else "row")
+                    zshapes[k] = zshapes.get(k, 0) + 1
+                elif is_scalar:
                     good = r == want[0]
                 else:
                     good = isinstance(r, list) and not (r and (isinstance(r, str) or not isinstance(r[0], (list, str)))) and r == want
@@ -1211,12 +1277,15 @@ def evaluate(desc):
                 ev.requests.append(req + " " + atok)
                 if approx_k is not None:
                     ev.impl.append(("@approx", r, 1e-9))
+                elif is_scalar == "zerod" and isinstance(r, list):
+                    ev.impl.append("[" + ",".join(r) + "]" if all(isinstance(v, str) for v in r) else "<%r>" % (r,))
                 elif is_scalar:
                     ev.impl.append(r if isinstance(r, str) else "<%r>" % (r,))
                 else:
                     ev.impl.append("[" + ",".join(r) + "]" if isinstance(r, list) and all(isinstance(v, str) for v in r) else "<%r>" % (r,))
                 nkinds += 1
         ev.info["arg_kind_calls"] = nkinds
+        ev.info["zerod_shapes"] = zshapes
 
     # ---- oracle: an edited part answers like a part freshly built from what is on its timeline
     if edited:
@@ -1225,6 +1294,27 @@ def evaluate(desc):
         if (None if ffp is None else (ffp.t, flp.t)) != got_span:
             orc.append("fresh-build: timeline %s, a fresh build of the same elements has %s" % (
                 got_span, None if ffp is None else (ffp.t, flp.t)))
+        # the fresh build itself against the model's `rebuildOps` (Props/C10Hist.lean rebuild_* speak about it): the
+        # state of the freshly built part - tables, time points, beat mode and the quarter-duration table a replay of
+        # the entries produces (a redundant entry of the edited part is not reproduced)
+        if valid_desc(desc) and not any(c[1] is None for c in desc["clefs"]):
+            r, e = call(state_text, fresh)
+            ev.requests.append("rebuild" + history_ops(desc)[len("hist"):])
+            ev.impl.append("err" if e else r)
+            if L["ms"] and stable and not e:
+                # the side condition of rebuild_same_maps, observed on both sides: the fresh build measures the same
+                # divisions per beat as the edited part (model: exactly; implementation: within 1e-9)
+                dv = []
+                for pt in (part, fresh):
+                    v, e2 = call(lambda: float(pt.inv_beat_map(1 + pt.beat_map(0))))
+                    dv.append("raises" if e2 else None if v != v else v)
+                same = dv[0] == dv[1] or (isinstance(dv[0], float) and isinstance(dv[1], float)
+                                          and abs(dv[0] - dv[1]) <= 1e-9 * max(1.0, abs(dv[0])))
+                if "raises" not in dv:
+                    ev.requests.append("rebuilddpb" + history_ops(desc)[len("hist"):])
+                    ev.impl.append("1" if same else "0")
+            norm = all(a[0] < b[0] and a[1] != b[1] for a, b in zip(L["qd_table"], L["qd_table"][1:]))
+            ev.info["qd_table"] = "normal" if norm else "redundant"
         canons = {"time_signature_map": lambda a: canon_float_rows(a, 3), "key_signature_map": lambda a: canon_float_rows(a, 2),
                   "clef_map": lambda a: canon_clef(a), "measure_map": canon_mm, "measure_number_map": canon_mn,
                   "metrical_position_map": canon_mp}
@@ -1655,6 +1745,10 @@ def distribution(descs, results):
         if inf.get("first_t"):
             c["timeline_starts_after_0"] += 1
         c["positions_judged"] += inf.get("positions_judged", 0)
-        c["calls_with_other_argument_kinds(np.int64,tuple,empty list,empty array)"] += inf.get("arg_kind_calls", 0)
+        c["calls_with_other_argument_kinds(np.int64,0-d array,tuple,empty list,empty array)"] += inf.get("arg_kind_calls", 0)
+        if inf.get("qd_table"):
+            c["fresh_build:quarter_duration_table_" + inf["qd_table"]] += 1
+        for k, v in (inf.get("zerod_shapes") or {}).items():
+            c[k] += v
     c["error_observations"] = errs
     return dict(c)
